@@ -4,6 +4,8 @@
            ((op midpoint) (tree T))
            ((op outgroup) (tree T) (pre (rename "old" "new")|(graft i "name")) (names ...) (remove b) (strict b))
            ((op outgroup_multi) (trees (T ...)) (names ...) (remove b) (strict b))
+           ((op handbuilt) (tree T) (flip (b ...)) (i n))   built with NewNode/ConnectNodes, then Reroot(Nodes()[i])
+           (pre (cli ...)): input and output trees of the command line, oracle only (no correspondence)
     obs :  ((err msg) (tree T') (audit (...)))   |   ((err msg))   |   ((panic msg))   *)
 From Coq Require Import String ZArith QArith Bool Arith List.
 From GT Require Import Base.Sexp Base.UTree Base.Codec Spec.Obs Model.Reroot Model.Rand Model.Outgroup Judge.Common.
@@ -310,6 +312,33 @@ Definition pre_kind (c : sexp) : string :=
   | _ => ""
   end.
 
+(** the command line (`gotree reroot outgroup|midpoint -i multi.nw ...`): the case carries one input
+    tree and the observation the tree printed for it, both read from Newick text, so only the
+    oracle speaks (neighbour orders are not comparable through the text) *)
+Definition judge_cli (op : string) (t : utree) (c o : sexp) : verdict :=
+  match get_string "err" o with
+  | None => VBad "undecodable observation"
+  | Some gerr =>
+    if negb (String.eqb gerr "") then VOk false (op ++ ":cli:err") else
+    match get_tree "tree" o with
+    | None => VBad "no tree in observation"
+    | Some g =>
+      let oracle : option (option string) :=
+          if String.eqb op "outgroup" then
+            names <- get_strings "names" c ;;
+            remove <- get_bool "remove" c ;;
+            strict <- get_bool "strict" c ;;
+            Some (oracle_outgroup_ok remove strict t g names)
+          else if String.eqb op "midpoint" then Some (oracle_midpoint_ok t g)
+          else None in
+      match oracle with
+      | None => VBad "bad case"
+      | Some (Some m) => VOracle m
+      | Some None => VOk true (op ++ ":cli")
+      end
+    end
+  end.
+
 Definition judge_root (op : string) (c o : sexp) : verdict :=
   let k := pre_kind c in
   if String.eqb k "graft" then
@@ -324,7 +353,7 @@ Definition judge_root (op : string) (c o : sexp) : verdict :=
   else
     match get_tree "tree" c with
     | None => VBad "undecodable case"
-    | Some t => judge_root_on op t (String.eqb k "") c o
+    | Some t => if String.eqb k "cli" then judge_cli op t c o else judge_root_on op t (String.eqb k "") c o
     end.
 
 (** one outgroup list applied in a loop to several trees: every result is judged on its own, and
@@ -360,6 +389,7 @@ Definition judge_multi (c o : sexp) : verdict :=
 Definition judge (c o : sexp) : verdict :=
   match get_string "op" c with
   | Some op => if String.eqb op "outgroup_multi" then judge_multi c o
+               else if String.eqb op "handbuilt" then judge_basic "reroot" c o
                else if String.eqb op "outgroup" || String.eqb op "midpoint" then judge_root op c o
                else judge_basic op c o
   | None => VBad "no op"
